@@ -256,6 +256,8 @@ def gen_case(rng, model=None, regime=None, kmax=8, pmax=8, cfg=None, int_only=Fa
     if percall and rng.random() < 0.25:
         call["limit_sigma"] = rng.choice([True, False])
     case = dict(model=model, cfg=cfg, teams=teams, sel=sel, vals=vals, call=call)
+    if rng.random() < 0.08:
+        case["ids"] = "shared"
     meta = dict(regime=regime, levels=lv, enc=style, ties=tie_shape(lv), k=len(teams))
     return case, meta
 
